@@ -170,6 +170,7 @@ class Sched:
             self.change_points = sorted(self.rng.randrange(1, max(2, est_steps)) for _ in range(d))
             self.prio = {}
         self.locks = []
+        self._rv = {"holder": None, "file": None, "ran": 0, "burst": 0}
 
     # ------------------------------------------------------------ thread management
     def spawn(self, name, fn):
@@ -345,6 +346,41 @@ class Sched:
                 self._handoff(me, where=self._where(frame))
         elif k == "phase":
             if phase and self.rng.random() < self.strategy.get("p", 0.5):
+                self._handoff(me, where=self._where(frame))
+        elif k == "rendezvous":
+            # race-directed: a thread that reaches a shared-state line is held there (with probability q)
+            # until another thread reaches a shared-state line of the same file, or has run `patience`
+            # steps, or finishes; once two threads are inside shared-state code at the same time every
+            # event of the next `burst` steps is a coin flip.  Small windows (a value stored on a class
+            # and read back a few lines later) are reached this way; uniform random switching rarely
+            # brings two threads into the same ten lines at once.
+            st = self._rv
+            if st["burst"] > 0:
+                st["burst"] -= 1
+                if self.rng.random() < 0.5:
+                    self._handoff(me, where=self._where(frame))
+                return
+            if st["holder"] is not None and st["holder"] != me["name"]:
+                # somebody is held at a shared line; I am the one running meanwhile
+                st["ran"] += 1
+                if is_shared and not opcode and frame.f_code.co_filename == st["file"]:
+                    st["holder"] = None
+                    st["burst"] = self.strategy.get("burst", 60)
+                    if self.rng.random() < 0.5:
+                        self._handoff(me, where=self._where(frame))
+                elif st["ran"] > self.strategy.get("patience", 30000):
+                    holder, st["holder"] = st["holder"], None
+                    self._handoff(me, to=holder, where=self._where(frame))
+                return
+            if is_shared and not opcode and st["holder"] is None and self.rng.random() < self.strategy.get("q", 0.3):
+                if len(self._runnable()) > 1:
+                    st["holder"] = me["name"]
+                    st["file"] = frame.f_code.co_filename
+                    st["ran"] = 0
+                    self._handoff(me, where=self._where(frame))
+                    if st["holder"] == me["name"]:
+                        st["holder"] = None      # the others finished or blocked: carry on
+            elif self.rng.random() < self.strategy.get("p", 1e-3):
                 self._handoff(me, where=self._where(frame))
 
     @staticmethod
